@@ -10,5 +10,6 @@ CONSTANTS
   BkRechecksLock = TRUE
   GcRechecksBands = TRUE
   CreateNewEnforced = FALSE
+  GcLoserRemovesLock = FALSE
 INVARIANTS NoLoss LockReleased
 CHECK_DEADLOCK FALSE
